@@ -56,6 +56,15 @@ func (core *JApiCore) drainCurrentScanner() *jerr.JApiError {
 
 // simply decides which function to call based on lexeme type
 func (core *JApiCore) next(lexeme scanner.Lexeme) *jerr.JApiError {
+	if core.currentDirective == nil && needsCurrentDirective(lexeme.Type()) {
+		// Happens e.g. for "(" at the very beginning of a file, right after ")"
+		// or after the parameter of the INCLUDE directive.
+		return core.japiError(
+			"unexpected "+lexeme.Type().String()+": there is no directive it can belong to",
+			lexeme.Begin(),
+		)
+	}
+
 	switch lexeme.Type() {
 	case scanner.Keyword:
 		return core.processKeyword(lexeme)
@@ -81,6 +90,15 @@ func (core *JApiCore) next(lexeme scanner.Lexeme) *jerr.JApiError {
 	default:
 		return core.japiError("Unknown lexeme type ("+lexeme.Type().String()+")", lexeme.Begin())
 	}
+}
+
+func needsCurrentDirective(t scanner.LexemeType) bool {
+	switch t { //nolint:exhaustive // Other lexemes don't touch the current directive.
+	case scanner.Parameter, scanner.Annotation, scanner.Schema, scanner.Text, scanner.Json, scanner.Enum,
+		scanner.ContextExplicitOpening:
+		return true
+	}
+	return false
 }
 
 func (core *JApiCore) processKeyword(lexeme scanner.Lexeme) *jerr.JApiError {
